@@ -1258,10 +1258,21 @@ class Flow:
             r_ = rst.copy()
             if target is not None:
                 self._bind(r_, target, rv if rv is not None else ast.Constant(None))
+                # the flow-insensitive definitions of the targets are what the helper returns (not the opaque call)
+                if rv is not None:
+                    self._alldef_targets(target, rv)
             leaving.append(r_)
         if not leaving:
             return State([])
         return join(leaving)
+
+    def _alldef_targets(self, target: ast.expr, value: ast.expr) -> None:
+        if isinstance(target, ast.Name):
+            self.alldefs.setdefault(target.id, []).insert(0, value)
+        elif isinstance(target, (ast.Tuple, ast.List)) and isinstance(value, (ast.Tuple, ast.List)) and len(target.elts) == len(value.elts) and not any(
+                isinstance(e, ast.Starred) for e in [*target.elts, *value.elts]):
+            for t_, v_ in zip(target.elts, value.elts):
+                self._alldef_targets(t_, v_)
 
     def _resolve_callee_wide(self, call: ast.Call) -> Func | None:
         """_resolve_callee plus `Class.method(...)` / `self.method` static methods and functions imported from other repo modules"""
@@ -1364,7 +1375,7 @@ class Flow:
             fall_ = join([cur, *breaks])
             return Outcome(None if fall_.dead else fall_)
         entry = self._loop_entry(s, st)
-        dom = [self._expand(s.iter, a) for a in entry.alts]
+        dom = [norm.canon(self._expand(s.iter, a)) for a in entry.alts]
         self._loops.append(s)
         body = self._block(s.body, entry.copy())
         self._loops.pop()
@@ -1670,14 +1681,27 @@ def outcome_summary(f: Func, repo: Repo | None, depth: int = 0) -> dict[str, lis
                         out[k] = fct
                 return out
 
+            # what is returned, as an expression over the parameters: `__ret__ is <expr>` (kept by the intersection only if every
+            # return of that outcome returns the same expression)
+            ident: Fact | None = None
+            vexp = norm.canon(site.expand(v))
+            pnames = set(f.params)
+            if norm.free_names(vexp) and norm.free_names(vexp) <= pnames and not any(isinstance(n_, (ast.Call, ast.Lambda, ast.ListComp, ast.GeneratorExp, ast.DictComp, ast.SetComp))
+                                                                                  and not (isinstance(n_, ast.Call) and isinstance(n_.func, ast.Attribute) and not n_.args and not n_.keywords)
+                                                                                  for n_ in ast.walk(vexp)) and _size(vexp) <= 40:
+                ident = Fact(ast.fix_missing_locations(ast.Compare(ast.Name("__ret__", ast.Load()), [ast.Is()], [copy.deepcopy(vexp)])))
             for pol, name in ((True, "true"), (False, "false")):
                 d = over_ret(refine(site, base, v, pol))
                 if d is not None:
+                    if ident is not None and pol:
+                        d[ident.text] = ident
                     sets[name].append(d)
             isnone = ast.Compare(v, [ast.Is()], [ast.Constant(None)])
             for pol, name in ((True, "none"), (False, "notnone")):
                 d = over_ret(refine(site, base, isnone, pol))
                 if d is not None:
+                    if ident is not None and not pol:
+                        d[ident.text] = ident
                     sets[name].append(d)
     if fl.end_state is not None:
         end = dict(fl.end_state.common_facts())
